@@ -66,7 +66,8 @@ class Result:
         # one finding per key
         if self.mode:
             cls = f"{cls},{self.mode}"
-            what = f"[interpreter running with -W error: warnings.warn() raises] {what}"
+            what = (f"[interpreter running with -W error: warnings.warn() raises] {what}" if self.mode == "warnings-as-errors"
+                    else f"[interpreter running with -O: assert statements do nothing, __debug__ is False] {what}")
         f = Finding(rule, construct, cls, what, detail, replay)
         for g in self.findings:
             if g.key == f.key:
